@@ -50,7 +50,7 @@ fn dispatch(toks: &[&str]) -> String {
         "recv" | "conn" | "bigbin" => conncases::run(toks),
         "frame" | "resp" => framecases::run(toks),
         "loop" => loopcases::run(toks),
-        "bigart" | "bigreq" => artcases::run(toks),
+        "bigart" | "bigreq" | "bigevt" => artcases::run(toks),
         "songs" | "songs_nc" => songcases::run(toks),
         "predef" => predefcases::run(toks),
         "filter" => filtercases::run(toks),
